@@ -6,7 +6,7 @@ from common import circ_to_json, err_name
 from props import gencommon as G
 
 RULE = ('parameter sets: generator kind (sub2/sub3, subtractor, subtract-with-compare incl. unequal widths, equality incl. constants '
-        'that do not fit, plus-one incl. out_len <> inp_len+1 / given or generated result labels / add_outputs on and off, '
+        'that do not fit or are negative (all constants around the range for widths 1..4), plus-one incl. out_len <> inp_len+1 / given or generated result labels / add_outputs on and off, '
         'if-then-else, pairwise gadgets, div-mod, sqrt) x widths x endianness x host (bare or random circuit built through the '
         'public API) x operand choice (inputs or internal gates, repeats allowed); model and code compared on the whole resulting '
         'circuit, returned labels and uuid counter; search evaluates the real result on all assignments of the host inputs')
@@ -44,7 +44,8 @@ def gen_request(ctx, rng, big=False):
         a = {'a': G.pick_operands(rng, host, n), 'b': G.pick_operands(rng, host, m), 'big_endian': be}
     elif kind == 'add_equal':
         n = rng.randint(1, wmax + 1) if rng.random() < 0.96 else 0
-        num = rng.choice([0, 1, rng.randint(0, 2 ** n), 2 ** n - 1 if n else 0, 2 ** n, 2 ** n + rng.randint(0, 5)])
+        num = rng.choice([0, 1, rng.randint(0, 2 ** n), 2 ** n - 1 if n else 0, 2 ** n, 2 ** n + rng.randint(0, 5),
+                          -rng.randint(1, 2 ** n + 2)])
         a = {'ins': G.pick_operands(rng, host, n), 'num': num}
     elif kind == 'add_plus_one':
         n = rng.randint(1, wmax) if rng.random() < 0.97 else 0
@@ -247,13 +248,28 @@ def check_result(ctx, r, res):
                 return
 
 
+def directed_equal():
+    """the equality gadget on a bare host for every constant around the operand range, negative ones included"""
+    from common import realize
+    out = []
+    for n in range(1, 5):
+        xs = ['x_%d' % i for i in range(n)]
+        host = realize({'gates': [[x, 'INPUT', []] for x in xs], 'inputs': xs, 'outputs': [], 'blocks': []})
+        for num in range(-(2 ** n) - 2, 2 ** n + 2):
+            out.append({'op': 'gen', 'c': host, 'ctr': 0, 'name': 'add_equal', 'args': {'ins': xs, 'num': num}})
+    return out
+
+
 def search(ctx):
     G.check_generate_ite(ctx)
     rng = ctx.rng('search')
-    for k in range(ctx.scale(400, 5000)):
-        r = gen_request(ctx, rng, big=False)
+    directed = directed_equal()
+    for k in range(-len(directed), ctx.scale(400, 5000)):
+        r = directed[k] if k < 0 else gen_request(ctx, rng, big=False)
         if r is None:
             continue
+        if k < 0:
+            ctx.count('directed:add_equal_all_constants')
         ctx.case(json.dumps(['s', r['name'], r['args'], r['c']['gates']]))
         res = G.py_gen(r)
         if 'err' in res:
